@@ -94,6 +94,10 @@ def main(argv=None):
     t0 = time.time()
     mod = importlib.import_module("vt.harness." + prop)
     obs = mod.obligations(args.tier)
+    if args.tier == "thorough" and not getattr(mod, "OWN_THOROUGH", False):
+        from vt.harness.common import deepen
+
+        obs = deepen(obs)
     if args.only:
         obs = [o for o in obs if args.only in o["id"]]
     known, fixed = load_known(prop)
